@@ -18,11 +18,12 @@ import json
 import copy as _copy
 import random as _random
 import zlib
+import shutil
 import hashlib
 import functools
 
 from sim import backends as B
-from sim.values import enc, dec, show, Unpicklable
+from sim.values import enc, dec, show, Unpicklable, F64, NAN
 from sim.simfs import SimFS, SimClock
 
 PROPS = ['C01', 'C02', 'C05', 'C06', 'C07', 'C15', 'C16', 'C18', 'C20']
@@ -36,6 +37,11 @@ ALGOS = ['no', 'inf', 'lfu', 'lru', 'mru', 'rr']
 
 class SimFault(Exception):
     pass
+
+
+class SimAbort(BaseException):
+    """what a wrapped function raises when it is interrupted: not an Exception subclass
+    (KeyboardInterrupt, SystemExit, GeneratorExit, asyncio.CancelledError are of this kind)"""
 
 
 class _Cur(object):
@@ -232,6 +238,29 @@ def d2(x, default=2):
     return r_d2(x, default)
 
 
+def r_p4(x, *, k=5):
+    return _res('p4(%r,%r)' % (_R(x), _R(k)))
+
+
+def _g4(x, *, k=1):
+    _enter('p4', show((x, k)))
+    return r_p4(x, k=k)
+
+
+# a partial that overrides a keyword-only DEFAULT: calls that omit k run with k=5, not with the function's k=1
+_P4 = functools.partial(_g4, k=5)
+
+
+def r_n9(a, b=1, c='c', d='d', e='e', f='f', g='g', h='h', i='i'):
+    return _res('n9(%r,%r,%r,%r)' % (_R(a), _R(b), _R(c), _R((d, e, f, g, h, i))))
+
+
+def n9(a, b=1, c='c', d='d', e='e', f='f', g='g', h='h', i='i'):
+    # nine named parameters: a flat key of more than sixteen items
+    _enter('n9', show((a, b, c, d, e, f, g, h, i)))
+    return r_n9(a, b, c, d, e, f, g, h, i)
+
+
 def r_k1(*xs, scale):
     return _res('k1(%r,%r)' % (_R(xs), _R(scale)))
 
@@ -289,10 +318,11 @@ def f6(x, y=2, *a, **kw):
 FUNCS = {'f1': (f1, r_f1), 'f2': (f2, r_f2), 'f3': (f3, r_f3),
          'f4': (f4, r_f4), 'f5': (f5, r_f5), 'f6': (f6, r_f6), 'f7': (f7, r_f7), 'f8': (f8, r_f8), 'f9': (f9, r_f9),
          'm2': (_M2, r_m2), 'c2': (_OBJ, r_c2), 'p2': (_P2, r_p2), 'w2': (w2, r_w2),
-         'b1': (max, r_b1), 'r1': (r1, r_r1), 'd2': (d2, r_d2), 'k1': (k1, r_k1), 'v1': (None, None)}          # a builtin without introspectable signature, always called with two Cnt
+         'b1': (max, r_b1), 'r1': (r1, r_r1), 'd2': (d2, r_d2), 'k1': (k1, r_k1), 'v1': (None, None),
+         'p4': (_P4, r_p4), 'n9': (n9, r_n9)}          # a builtin without introspectable signature, always called with two Cnt
 # signature twins: f7 is spelled like f2, f8 like f4 (they differ in the default value only)
-SHAPE = {'f7': 'f2', 'f8': 'f4', 'm2': 'f2', 'c2': 'f2', 'p2': 'f2', 'w2': 'f2', 'd2': 'f2', 'v1': 'f2'}
-DFLT = {'f2': 2, 'f6': 2, 'f4': 1, 'f7': 7.26, 'f8': 7.26, 'm2': 2, 'c2': 2, 'p2': 2, 'w2': 2, 'd2': 2, 'v1': 2}
+SHAPE = {'p4': 'f4', 'f7': 'f2', 'f8': 'f4', 'm2': 'f2', 'c2': 'f2', 'p2': 'f2', 'w2': 'f2', 'd2': 'f2', 'v1': 'f2'}
+DFLT = {'p4': 5, 'f2': 2, 'f6': 2, 'f4': 1, 'f7': 7.26, 'f8': 7.26, 'm2': 2, 'c2': 2, 'p2': 2, 'w2': 2, 'd2': 2, 'v1': 2}
 KWNAME = {'d2': {'y': 'default'}}      # the second parameter of d2 is called `default`
 DEFAULTS = {'f2': ('y', 2), 'f6': ('y', 2), 'f4': ('k', 1), 'f7': ('y', 7.26), 'f8': ('k', 7.26)}
 VARIADIC = ('f3', 'f6', 'b1', 'w2', 'k1')
@@ -377,11 +407,14 @@ def gen_config(rng, prop, tier):
     if wide:
         maxsize = rng.choice([30, 40])      # LFU evicts max(2, maxsize//10) entries: >2 only from 30 up
     purge = rng.chance(0.3) and prop != 'C06'
+    purge_then_off = prop == 'C06' and rng.chance(0.1)
     fn = rng.weighted([(3, 'f1'), (4, 'f2'), (2, 'f3'), (2, 'f4'), (2, 'f5'), (2, 'f6'), (1, 'f7'), (1, 'f8'), (1, 'f9'), (1, 'b1'),
-                       (1, 'm2'), (1, 'c2'), (1, 'p2'), (1, 'w2'), (1, 'd2'), (1, 'k1')])
+                       (1, 'm2'), (1, 'c2'), (1, 'p2'), (1, 'w2'), (1, 'd2'), (1, 'k1'), (1, 'p4'), (1, 'n9')])
     if prop == 'C20' and rng.chance(0.12):
         fn = 'v1' 
     huge = prop == 'C06' and algo in ('lru', 'mru') and rng.chance(0.012)
+    if purge_then_off:
+        purge = True
     if huge:
         # a cache of a thousand entries and more than ten thousand recorded uses between two overflows
         maxsize, maxsize_pos, purge, fn, wide = rng.choice([1000, 1200]), False, False, 'f1', False
@@ -399,6 +432,8 @@ def gen_config(rng, prop, tier):
     if prop in ('C07', 'C02'):
         labels = [l for l in labels if l not in (None, 'null')] + ['dict']
     label = rng.choice(labels)
+    if purge_then_off and not huge:
+        label = rng.choice(['dict', 'dict', 'file-pkl', 'dir-pkl', 'sql-mem'])
     if huge:
         label = None          # in memory only: a thousand entries are read back after every step
     if fn == 'b1' and label in ('file-src', 'dir-src'):
@@ -436,12 +471,18 @@ def gen_config(rng, prop, tier):
         # the archive is named relative to the working directory it is opened in, and the process changes
         # directory while the decorated function lives on (directory and sqlite archives are bound when opened)
         backend['rel'] = True
+    vanish = prop == 'C05' and label is not None and label.split('-')[0] in ('file', 'dir') and not direct \
+        and not (backend.get('link') or backend.get('rel')) and rng.chance(0.3 if purge else 0.1)
+    if vanish:
+        # the archive lives in a directory of its own that a later fault removes (unmounted volume, tmp cleaner)
+        backend['name'] = 'vol/' + B.config(label, 'm0')['name']
     unenc = prop == 'C07' and not direct and not wide and rng.chance(0.1) and algo != 'no' and maxsize != 0 and \
         label in ('file-pkl', 'file-json', 'dir-pkl', 'dir-json', 'dir-z', 'dir-fast', 'sql-file')
     cfg = {'module': module, 'algo': algo, 'maxsize': maxsize, 'maxsize_pos': maxsize_pos, 'unenc': unenc,
            'purge': purge, 'keymap': km, 'fn': fn,
            'backend': backend, 'direct': direct,
            'ignore': None, 'tol': None, 'deep': False, 'wide': wide, 'huge': huge,
+           'purge_then_off': bool(purge_then_off and not huge), 'vanish': bool(vanish),
            'bigres': label in ('dir-z', 'dir-fast', 'dir-mmap', 'dir-pkl', 'file-pkl', 'sql-file') and not wide
            and rng.chance(0.12)}
     if prop == 'C16' and module == 'safe' and rng.chance(0.25):
@@ -452,6 +493,10 @@ def gen_config(rng, prop, tier):
         else:
             cfg['tol'] = rng.choice([0, 1])
             cfg['deep'] = rng.chance(0.5)
+    if prop == 'C20' and rng.chance(0.2) and not (km['kind'] == 'pickle' and km['arg'] == 'json') \
+       and fn not in ('b1', 'r1'):
+        cfg['tol'] = rng.choice([0, 1])
+        cfg['deep'] = rng.chance(0.6)
     if prop == 'C18' and rng.chance(0.35) and not (km['kind'] == 'pickle' and km['arg'] == 'json') \
        and not (label in ('file-src', 'dir-src') and km['kind'] == 'raw'):
         if fn in ('f2', 'f6', 'f7') and rng.chance(0.5):
@@ -484,6 +529,18 @@ def logical_call(rng, fn, pool, tuples_ok):
         return {'x': rng.randint(0, 14)}
     if fn == 'k1':
         return {'a': [rng.choice(pool) for _ in range(rng.randint(0, 3))], 'k': rng.choice(pool[:4])}
+    if fn == 'n9':
+        c = {'x': rng.choice(pool)}
+        if rng.chance(0.6):
+            c['y'] = rng.choice(pool[:3] + [1])
+        if rng.chance(0.4):
+            c['n9'] = [[n, rng.choice(['c', 'd', 'zz', 7])] for n in rng.sample(list('cdefghi'), rng.randint(1, 2))]
+        return c
+    if fn == 'p4':
+        c = {'x': rng.choice(pool)}
+        if rng.chance(0.6):
+            c['k'] = rng.choice(pool[:2] + [5, 1, 1])     # 1 is the underlying function's own default
+        return c
     if fn == 'b1':
         ints = [p for p in pool if isinstance(p, int) and not isinstance(p, bool) and abs(p) < 2 ** 31] or [0, 1, 2]
         return {'x': rng.choice(ints), 'a': [rng.choice(ints)]}
@@ -515,6 +572,25 @@ def spell(rng, fn, c):
     rename = KWNAME.get(fn, {})
     if fn == 'k1':
         return {'op': 'call', 'a': [enc(v) for v in c['a']], 'kw': [['scale', enc(c['k'])]]}
+    if fn == 'n9':
+        # bound values: a, b and the named ones; everything else keeps its default. Spelled positionally up to a
+        # random parameter and by keyword (in any order) from there on
+        names = list('abcdefghi')
+        dflt = dict(zip(names, [None, 1, 'c', 'd', 'e', 'f', 'g', 'h', 'i']))
+        given = {'a': c['x']}
+        if 'y' in c:
+            given['b'] = c['y']
+        for n, v in c.get('n9', []):
+            given[n] = v
+        npos = rng.randint(0, 1 + max(names.index(n) for n in given))
+        args = [given.get(n, dflt[n]) for n in names[:npos]]
+        if npos == 0 or (npos == 1 and rng.chance(0.0)):
+            pass
+        kws = [[n, given[n]] for n in names[npos:] if n in given]
+        rng.shuffle(kws)
+        if 'a' not in names[:npos] and not any(n == 'a' for n, _ in kws):
+            kws.append(['a', c['x']])
+        return {'op': 'call', 'a': [enc(v) for v in args], 'kw': [[n, enc(v)] for n, v in kws]}
     fn = SHAPE.get(fn, fn)
     if fn == 'r1':
         return {'op': 'call', 'a': [c['x']], 'kw': []}
@@ -629,10 +705,20 @@ def generate(rng, prop, tier):
         if km['kind'] == 'pickle' and km['arg'] == 'json':
             extra = [e for e in extra if not isinstance(e, (bytes, tuple))]
         pool = pool + extra
+    if prop == 'C02' and km['kind'] == 'raw' and cfg['backend'] is not None and rng.chance(0.5) and \
+       cfg['backend']['label'] in ('dir-pkl', 'dir-fast', 'dir-z', 'dir-mmap'):
+        # a key that is not equal to its own unpickled copy: float nan, the usual missing-value marker (the same
+        # object on every call, as math.nan is). Directory archives find entries by name, not by comparing keys
+        pool.append(NAN)
     if cfg.get('tol') is not None:
         # rounded floats must not collide with ints of the pool or with the defaults y=2, k=1, z=3
         # (5.04 -> 5.0 == 5 are equal keys for a dict but distinct names for a directory archive)
         pool = [p for p in pool if p not in (5, 6, 1.5, 2.25)] + [5.04, 5.06, 6.249]
+        if rng.chance(0.5):
+            # a float subclass (numpy.float64 is one), and floats nested in a tuple (deep rounding)
+            pool.append(F64(5.04) if rng.chance(0.5) else F64(7.31))
+            if not (km['kind'] == 'pickle' and km['arg'] == 'json'):
+                pool.extend([(1.26, 2.0), (1.3, 2.0)])
     rng.shuffle(pool)
     hot = [logical_call(rng, fn, pool[:6], True) for _ in range(rng.randint(2, 9))]
     if cfg.get('wide'):
@@ -690,6 +776,10 @@ def generate(rng, prop, tier):
             op = spell(rng, fn, c)
             if kind == 'rcall':
                 op['raises'] = True
+                if rng.chance(0.2):
+                    op['base'] = True        # an interrupt-like BaseException
+                if rng.chance(0.2):
+                    op['cause'] = True       # raised `from` another exception
             elif kind in ('key', 'lookup', 'peer_call', 'sibling_call', 'codeco_call'):
                 op['op'] = kind
             else:
@@ -772,6 +862,14 @@ def generate(rng, prop, tier):
     if prop == 'C20':
         pos = rng.randint(0, len(ops))
         ops.insert(pos, {'op': 'clone'})
+    if cfg.get('vanish'):
+        ops.insert(rng.randint(min(3, len(ops)), len(ops)), {'op': 'vanish'})
+        ops.extend(spell(rng, fn, logical_call(rng, fn, pool, True))
+                   for _ in range(rng.randint(3, 10) + (cfg['maxsize'] if isinstance(cfg['maxsize'], int) and cfg['maxsize'] < 30 else 0)))
+    if cfg.get('purge_then_off'):
+        # the decorator purges while its archive is on; then the archive is switched off and the very same
+        # cache must evict by its policy, counting uses from when the entries (re-)entered
+        ops.insert(rng.randint(min(3, len(ops)), max(3, len(ops) // 2)), {'op': 'off'})
     return {'engine': 'memosim', 'prop': prop, 'cfg': cfg, 'ops': ops, 'strict': strict,
             'kseed': rng.below(1 << 30)}
 
@@ -830,6 +928,7 @@ class World(object):
         self.sib = None
         self.mut = [1, 2]        # ONE list object, passed again and again and mutated in place in between
         self.raised_steps = set()
+        self.vanished = False  # C05: the archive's storage was removed by a fault
         self.orig = None       # C20: the function that was pickled
         self.orig_snap = None
         self.build(first=True)
@@ -925,8 +1024,11 @@ class World(object):
                 on = bool(c.archived())
                 arch = snapshot(a) if on else None
         except Exception as e:
-            raise Mismatch('contents-unreadable', 'reading the cache/archive contents through items() raised %s: %s'
-                           % (type(e).__name__, str(e)[:200]))
+            if not self.vanished:
+                raise Mismatch('contents-unreadable', 'reading the cache/archive contents through items() raised %s: %s'
+                               % (type(e).__name__, str(e)[:200]))
+            # storage gone: only the in-memory side is observable
+            mem, arch, on, direct = dict(c), {}, bool(c.archived()), False
         return {'info': tuple(f.info()), 'mem': mem, 'arch': arch, 'on': on,
                 'direct': direct, 'nevals': len(self.evals)}
 
@@ -980,6 +1082,8 @@ class Oracle(object):
         except TypeError:
             resident0, hashable = False, False
         in_arch0 = bool(hashable and before['on'] and arch0 is not None and key in arch0)
+        if hashable and not in_arch0 and before['on'] and arch0 and "'nan'" in show(key):
+            in_arch0 = any(show(k) == show(key) for k in arch0)       # nan keys: equal by spelling only
 
         # ---- C01 / generic: results and exceptions
         unenc_about = prop == 'C07' and w.cfg.get('unenc') and tag == 'exc' and not raised_req and \
@@ -998,7 +1102,7 @@ class Oracle(object):
                                    % (show_op(op), type(val).__name__, show(k)))
             return
         if tag == 'exc':
-            if raised_req and isinstance(val, SimFault):
+            if raised_req and isinstance(val, (SimFault, SimAbort)):
                 pass
             else:
                 if not (bad and prop != 'C16'):
@@ -1064,7 +1168,12 @@ class Oracle(object):
                     if extra:
                         raise Mismatch('eviction-policy', 'call %s: unexpected entries %s' % (show_op(op), show(extra)))
                     V = [k for k in cand if k not in mem1]
-                    if len(cand) <= maxsize:
+                    if len(cand) > maxsize and w.cfg['purge'] and before['on']:
+                        # an overflow WITH purge is outside this property (C05: memory is emptied, C07: nothing
+                        # lost); every entry left memory, so use counts and recency start afresh
+                        self.bump('overflow-purged')
+                        self.reset_usage()
+                    elif len(cand) <= maxsize:
                         if V:
                             raise Mismatch('eviction-policy', 'call %s did not overflow (maxsize %d) yet %s left memory'
                                            % (show_op(op), maxsize, show(V)))
@@ -1245,8 +1354,18 @@ def run_world(case, prop, root, name, skip, fs, clock, probes, faults, log):
                 op = dict(op)
                 del op['raises']      # in the twin this call is served without evaluation, as in world A
             if op.get('raises'):
-                w.raise_next = SimFault('injected at step %d' % step)
+                if op.get('base'):
+                    w.raise_next = SimAbort('interrupted at step %d' % step)
+                    bump(faults, 'function-raises-BaseException')
+                else:
+                    w.raise_next = SimFault('injected at step %d' % step)
                 fault = w.raise_next
+                if op.get('cause'):
+                    # the function raises `X from Y`: the explicit cause belongs to the exception
+                    fault.__cause__ = KeyError('inner cause at step %d' % step)
+                    fault.__suppress_context__ = True
+                    bump(faults, 'function-raises-with-cause')
+                cause0 = fault.__cause__
                 bump(faults, 'function-raises')
             if op.get('bad'):
                 if keyerr is None or cfg['direct']:
@@ -1259,11 +1378,24 @@ def run_world(case, prop, root, name, skip, fs, clock, probes, faults, log):
                 outcome = ('ok', f(*args, **kw))
             except BaseException as e:
                 outcome = ('exc', e)
-                if op.get('raises') and e is not fault and isinstance(e, SimFault):
+                if op.get('raises') and e is not fault and isinstance(e, (SimFault, SimAbort)):
                     raise Mismatch('exception-identity', 'a different exception object reached the caller')
+                if op.get('raises') and e is fault and (e.__cause__ is not cause0 or
+                                                        e.__suppress_context__ != (cause0 is not None)):
+                    raise Mismatch('exception-identity', 'the exception reached the caller with __cause__ %r '
+                                   '(suppress_context %r); the function raised it with __cause__ %r'
+                                   % (e.__cause__, e.__suppress_context__, cause0))
             pending = w.raise_next
             w.raise_next = None
             after = w.observe()
+            if w.vanished and outcome[0] == 'exc' and not op.get('raises'):
+                # after the storage fault a call may fail (the error is the archive's); capacity is still checked
+                bump(probes, 'call-failed-after-storage-vanished')
+                if prop == 'C05' and w.eff_maxsize is not None and len(after['mem']) > max(w.eff_maxsize, len(before['mem'])):
+                    raise Mismatch('capacity', 'failing call %s after the storage vanished: %d resident before, %d after, '
+                                   'maxsize %r' % (show_op(op), len(before['mem']), len(after['mem']), w.eff_maxsize))
+                before = after
+                continue
             if op.get('raises') and pending is None:
                 w.raised_steps.add(step)
             if op.get('raises') and pending is not None:
@@ -1377,6 +1509,9 @@ def run_world(case, prop, root, name, skip, fs, clock, probes, faults, log):
             if nev > 1:
                 raise Mismatch('double-evaluation', 'second instance: call %s evaluated the function %d times'
                                % (show_op(op), nev))
+            if prop == 'C02' and nev and garch and "'nan'" in show(gkey) and any(show(k) == show(gkey) for k in garch):
+                raise Mismatch('needless-evaluation', 'second instance on the same archive: call %s evaluated the '
+                               'function although key %s was in the shared archive' % (show_op(op), show(gkey)))
             if prop == 'C02' and nev and (gkey in gmem or (garch is not None and gkey in garch)):
                 raise Mismatch('needless-evaluation', 'second instance on the same archive: call %s evaluated the '
                                'function although key %s was %s' % (show_op(op), show(gkey),
@@ -1425,6 +1560,22 @@ def run_world(case, prop, root, name, skip, fs, clock, probes, faults, log):
             continue
         # ---- management operations
         c = f.__cache__()
+        if kind == 'vanish':
+            shutil.rmtree(os.path.join(w.root, 'vol'), ignore_errors=True)
+            w.vanished = True
+            bump(faults, 'archive-storage-vanished')
+            before = w.observe()
+            continue
+        if w.vanished and kind in ('load', 'load_k', 'dump', 'dump_k', 'on', 'off', 'clone', 'restart_dump'):
+            # management operations on the vanished storage may fail; they are not what is checked here
+            try:
+                if kind in ('load', 'dump'):
+                    getattr(f, kind)()
+                bump(probes, 'management-op-after-storage-vanished')
+            except Exception:
+                bump(probes, 'management-op-failed-after-storage-vanished')
+            before = w.observe()
+            continue
         if kind == 'load':
             f.load()
             bump(faults, 'bulk-load')
@@ -1760,7 +1911,15 @@ def evidence_info(prop):
                 'second function made by the same decorator object. Swarm options per run: rarer argument kinds (empty / '
                 'long shared-prefix / slash strings, big and negative ints, tuple, bytes), "wide" runs (maxsize 30/40 with '
                 '45-80 distinct calls), "sweep" workloads (working set = cache size used equally often, then newcomers), '
-                '"bigres" runs (1.2 MB results). A tenth of the calls each return None, \'\', 0, a 9 kB string. Oracle: '
+                '"bigres" runs (1.2 MB results). A tenth of the calls each return None, \'\', 0, a 9 kB string. Wrapped '
+                'callables: plain functions of every signature shape, bound method, callable instance, partials (one '
+                'overriding a keyword-only default), functools.wraps decorator, a builtin, a recursive function, a '
+                'nine-parameter function (flat keys of more than 16 items), a by-value nested function. Raising calls '
+                'raise an Exception or a BaseException (interrupt-like), a fifth of them `from` an explicit cause. Per '
+                'property: C02 adds float nan arguments (raw keymap, pickled directory archives); C05 adds the storage '
+                'fault "vanish" (the archive\'s directory is removed mid-run, later operations may fail, the bound must '
+                'hold); C06 adds purge configurations whose archive is switched off mid-run; tol runs (C16 C18 C20) add a '
+                'float subclass and floats nested in tuples (deep rounding). Oracle: '
                 + RULES[prop] + '. distinct = distinct (configuration, sequence of (step kind, resident count)); '
                 'non-trivial = the history contains at least one miss and at least one hit or load',
         'components': {
